@@ -58,6 +58,9 @@ CLAIMED = {
  "C18": ("Proof: every decoder is verified with the receiver object in an arbitrary initial state (recycled object), so its postcondition 'fields are a function of the frame' forces every list to be reset and every field assigned; read replies carry at most count bytes written by this request's ReadAt.",
          "registry.get/put are abstract; recv's payload-buffer handling is verified. Bridge contracts as in C01.",
          "4-C18"),
+ "C19": ("Proof of the per-call page contracts from which the listing property follows: readdir.Readdir (the helper of staticfs and composefs) returns exactly names[offset : min(offset+count, n)] with Offset = index+1 and QID/Type from the table (loop invariant, all offsets/counts/sizes); staticfs.dir.Readdir and composefs.root.Readdir cut every page from the sorted key list (one deterministic order) and pass offset/count through; localfs.Local.Readdir against a ghost model of the OS directory stream: a page is the next slice dirName(offset..), cookies are index+1, a page is full or the directory ended, Type is the QID's type (F6 fixed); the server forwards offset and min(count, msize-11), replies with exactly the backend's entries, and rreaddir.encode sends the longest prefix of whole entries that fits the count (never an empty reply when one entry fits); resume-cookie lemma.",
+         "Partial. Assumed: os.File.Seek/Readdirnames behave as a rewindable stream that delivers an unchanged directory in the same order (assumed contracts, listed); maps.Keys + slices.Sort yield the sorted key list (assumed at their call sites); directories do not change during a listing. NOT decided: that a listed QID equals what Walk + GetAttr report for composefs and localfs (only: localfs stats the joined path with the same info() function, staticfs lists the QIDs recorded at construction, and the mapper is stable - C20); the composition over many calls is the resume-cookie lemma plus an induction argued on paper.",
+         "4-C19"),
  "C20": ("Proof (unbounded, all 64-bit inputs): encodeLikely against an independent spec function of the dev_t layout, injectivity and bit-63 disjointness as lemmas over that contract; localToQid against a ghost view of its sync.Map and atomic counter (known pairs keep their path, new pairs get a fresh path with bit 63 set, table invariant: values distinct and below the counter, other pairs untouched); qids.Mapper.QIDFor (stable, injective, recorded, invariant preserved) with a guarded-by obligation on Mapper.paths; PathGenerator.NewPath; ModeFromOS/OSMode/QIDType round-trip lemmas over the real SSA for all 2^32 modes.",
          "sync.Map and sync/atomic are modelled sequentially (linearizability trusted); counter wrap-around after 2^63 fallback paths / 2^64 mapper paths excluded by precondition; os.FileInfo.Sys is assumed to return *syscall.Stat_t (as localfs uses it). Findings F7 and F8 fixed (known_findings.txt).",
          "4-C20"),
@@ -66,7 +69,6 @@ CLAIMED = {
 NOT_YET = "check not built"
 NA = {
  "C17": "Not decided by contracts within reach: the property lives in vecnet.readFromBuffersLinux (readv through syscall.RawConn.Read with a callback run by the runtime, iovecs built with unsafe pointers) and in the nested loops of Buffers.ReadFrom over a slice of slices that is mutated in place. The generator's subset has no closures executed by foreign functions and no unsafe pointer arithmetic, and a contract for only the portable path does not decide 'both receive paths'. (Buffers).ReadFrom is therefore an assumed contract of recv (listed under C02). DESIGN.md 0f.",
- "C19": "Not built: needs a ghost model of the OS directory stream with contracts in four backends (readdir.Readdir, localfs, staticfs, composefs) and a relational obligation between Readdir, Walk and GetAttr results of a backend; the server's whole-entry truncation (rreaddir.encode) is verified under C13. Defect F6 (localfs paging) seen in round 0 is described in DESIGN.md section 5 but is not under a check. DESIGN.md 0f.",
 }
 
 def main():
